@@ -1,12 +1,266 @@
 /-
-  CmdDM.lean — driver commands (stub; owned by the group that builds the corresponding model).
+  CmdDM.lean — driver commands for the density-matrix / noise models (C17, C06).
+  Matrices travel as `n=<size> re=<q,q,…> im=<q,q,…>` (row-major, each `q` = `num/den` or `num`);
+  replies carry `m=<re,im;re,im;…>`.
 -/
+import GraphiqModel.Model.Noise
 import Driver.Proto
+import Driver.CmdTab
 namespace Graphiq.CmdDM
-open Graphiq Graphiq.Proto
+open Graphiq Graphiq.Proto Graphiq.DM Graphiq.Noise
+
+def parseRat (s : String) : Rat :=
+  match splitChar '/' s with
+  | [a] => ((a.toInt?.getD 0 : Int) : Rat)
+  | [a, b] => mkRat (a.toInt?.getD 0) (b.toNat?.getD 1)
+  | _ => 0
+
+def ratsOf (s : String) : List Rat :=
+  if s = "" ∨ s = "-" then [] else (splitChar ',' s).map parseRat
+
+def showRats (l : List Rat) : String :=
+  if l.isEmpty then "-" else String.intercalate "," (l.map toString)
+
+def matOf (a : Args) (pfx : String := "") : Mat :=
+  let n := getNat a (pfx ++ "n")
+  let re := (ratsOf (get a (pfx ++ "re"))).toArray
+  let im := (ratsOf (get a (pfx ++ "im"))).toArray
+  Mat.ofRows n (Array.ofFn (n := n) fun i => Array.ofFn (n := n) fun j =>
+    (⟨re.getD (i.val * n + j.val) 0, im.getD (i.val * n + j.val) 0⟩ : GQ))
+
+def showMat (m : Mat) : String := s!"n={m.n} m={m.toStr}"
+
+def showFid : FidOut → String
+  | .val f => s!"ok val={f}"
+  | .uhlmann => "ok uhlmann"
+
+def ptrace (a : Args) (old : Bool) : String :=
+  let ρ := matOf a
+  let keep := natsOf ',' (get a "keep")
+  let dims := natsOf ',' (get a "dims")
+  if old then s!"ok {showMat (partialTraceOld ρ keep dims).norm}"
+  else match partialTrace ρ keep dims with
+    | .ok m => s!"ok {showMat m.norm}"
+    | .error e => s!"err {e}"
+
+def fid (a : Args) : String :=
+  let ρ := matOf a "a"
+  let σ := matOf a "b"
+  let info := s!"purea={b01 (isPure ρ)} pureb={b01 (isPure σ)} dma={b01 (isDensityMatrix ρ)} dmb={b01 (isDensityMatrix σ)} ov={(ρ.mul σ).trace.re} pura={(ρ.mul ρ).trace.re} purb={(σ.mul σ).trace.re}"
+  match fidelity ρ σ with
+  | .ok f => s!"{showFid f} {info}"
+  | .error e => s!"err {e} {info}"
+
+
+/-! ### C06: noisy compilation -/
+
+def parseNoise (s : String) : NoiseM :=
+  let parts := splitChar '@' s
+  let aft : Bool := (parts.getD 2 "a") = "a"
+  match parts.headD "N" with
+  | "N" => .none
+  | "D" => .depol (parseRat (parts.getD 1 "0")) aft
+  | "L" => .loss (parseRat (parts.getD 1 "0")) aft
+  | "P" =>
+    let k : PauliK := match parts.getD 1 "I" with
+      | "I" => .I | "X" => .X | "Y" => .Y | "Z" => .Z | _ => .bad
+    .pauli k aft
+  | "R" => .replace
+  | _ => .other
+
+def parseKind : String → Kind
+  | "input" => .input | "output" => .output | "identity" => .identity
+  | "h" => .h | "s" => .s | "sdg" => .sdg | "x" => .x | "y" => .y | "z" => .z
+  | "cnot" => .cnot | "cz" => .cz | "ccnot" => .ccnot | "ccz" => .ccz | "mcr" => .mcr | "measz" => .measZ
+  | _ => .param
+
+def parseRegT : String → RegT
+  | "p" => .p | "c" => .c | _ => .e
+
+/-- `kind:r1:t1:r2:t2:c:n0:n1` -/
+def parseCOp (s : String) : COp :=
+  let f := (splitChar ':' s).toArray
+  { kind := parseKind (f.getD 0 ""), r1 := (f.getD 1 "0").toNat?.getD 0, t1 := parseRegT (f.getD 2 "e"),
+    r2 := (f.getD 3 "0").toNat?.getD 0, t2 := parseRegT (f.getD 4 "e"), c := (f.getD 5 "0").toNat?.getD 0,
+    n0 := parseNoise (f.getD 6 "N"), n1 := parseNoise (f.getD 7 "N") }
+
+def showAct : Act → String
+  | .gate k => s!"g{k}"
+  | .noise k side q _ => s!"n{k}.{side}.{q}"
+  | .replace k => s!"r{k}"
+
+def showTrace (l : List Act) : String := if l.isEmpty then "-" else String.intercalate "," (l.map showAct)
+
+def showTabC (t : Tab) : String :=
+  let rows := 2 * t.n
+  s!"{bits2ToString rows t.n fun i j => (t.row i).x j}/{bits2ToString rows t.n fun i j => (t.row i).z j}/{bitsToString rows fun i => (t.row i).r}/{bitsToString rows fun i => (t.row i).ip}"
+
+def showMix (m : Mixture) : String :=
+  if m.isEmpty then "-" else String.intercalate ";" (m.map fun (p, t) => s!"{p}|{showTabC t}")
+
+def noiseRun (a : Args) : String :=
+  let ops := (listOf (get a "ops")).map parseCOp
+  let ns := get a "ns" = "1"
+  let ne := getNat a "ne"
+  let np := getNat a "np"
+  let nc := getNat a "nc"
+  let det := get a "det" = "1"
+  let be : Backend := if get a "be" = "dm" then .dm else .stab
+  let tr := match compileTrace ns be np ops with
+    | .ok t => showTrace t
+    | .error e => s!"err:{e}"
+  match be with
+  | .stab =>
+    match compileStab ns ne np nc det ops with
+    | .error e => s!"err {e} trace={tr}"
+    | .ok s =>
+      let md := if get a "want" = "mixdm" then s!" {showMat (mixtureDensity (ne + np) s.mix).norm}" else ""
+      s!"ok trace={tr} total={Mix.total s.mix} rec={showNats "," s.creg} lossmeas={b01 s.lossMeas} nonunif={b01 s.nonUniform} branches={s.mix.length} mix={showMix s.mix}{md}"
+  | .dm =>
+    match compileDM ns ne np nc det ops with
+    | .error e => s!"err {e} trace={tr}"
+    | .ok s =>
+      match s.ρ with
+      | none => s!"ok trace={tr} nan=1 rec={showNats "," s.creg}"
+      | some ρ => s!"ok trace={tr} nan=0 tr={ρ.trace.re} psd={b01 (isPsd ρ)} rec={showNats "," s.creg} {showMat ρ}"
+
+def noiseTrace (a : Args) : String :=
+  let ops := (listOf (get a "ops")).map parseCOp
+  let ns := get a "ns" = "1"
+  let np := getNat a "np"
+  let one (be : Backend) : String := match compileTrace ns be np ops with
+    | .ok t => showTrace t
+    | .error e => s!"err:{e}"
+  s!"ok dm={one .dm} stab={one .stab}"
+
+
+/-- map for one register type: `h=D@1/3@a;x=P@X@b+N`  (a value `a+b` is a list of two noises) -/
+def parseMap (s : String) : NoiseMapFor :=
+  let ents := if s = "" ∨ s = "-" then [] else (splitChar ';' s).map fun e =>
+    match splitChar '=' e with
+    | [k, v] => (parseKind k, (splitChar '+' v).map parseNoise)
+    | _ => (Kind.param, [])
+  fun k => (ents.find? fun e => e.1 == k).map (·.2)
+
+/-- `kind:t1:t2` or `wrap.h.s.x:t1` -/
+def parseWOp (s : String) : WOp :=
+  let f := (splitChar ':' s).toArray
+  let head := splitChar '.' (f.getD 0 "")
+  if head.headD "" = "wrap" then
+    { kind := .identity, wrapped := head.tail.map parseKind, t1 := parseRegT (f.getD 1 "e") }
+  else { kind := parseKind (f.getD 0 ""), t1 := parseRegT (f.getD 1 "e"), t2 := parseRegT (f.getD 2 "e") }
+
+def showNoise : NoiseM → String
+  | .none => "N"
+  | .depol p a => s!"D@{p}@{if a then "a" else "b"}"
+  | .loss r a => s!"L@{r}@{if a then "a" else "b"}"
+  | .pauli k a =>
+    let ks := match k with | .I => "I" | .X => "X" | .Y => "Y" | .Z => "Z" | .bad => "B"
+    s!"P@{ks}@{if a then "a" else "b"}"
+  | .replace => "R"
+  | .other => "O"
+
+def noiseAssign (a : Args) : String :=
+  let mapE := parseMap (get a "mape")
+  let mapP := parseMap (get a "mapp")
+  let ctl (k : String) : Option NoiseMapFor := if has a k then some (parseMap (get a k)) else none
+  let mapCtl : RegT → RegT → Option NoiseMapFor := fun t1 t2 =>
+    let c (t : RegT) := if t == .p then "p" else "e"
+    ctl ("map" ++ c t1 ++ c t2)
+  let ops := (listOf (get a "ops")).map parseWOp
+  let outs := ops.map fun op => match noisyGate mapE mapP mapCtl op with
+    | .ok l => String.intercalate "+" (l.map showNoise)
+    | .error e => s!"err:{e}"
+  s!"ok noises={if outs.isEmpty then "-" else String.intercalate "," outs}"
+
+/-- `OneQubitGateWrapper.unwrap()` for a list noise: `ops=h.s.x noise=tok+tok+tok` → applied order -/
+def noiseUnwrap (a : Args) : String :=
+  let kinds := (splitChar '.' (get a "ops")).map parseKind
+  let ns := (splitChar '+' (get a "noise")).map parseNoise
+  let r := if get a "single" = "1" then unwrapSingle kinds (ns.headD .none) else unwrapList kinds ns
+  let showK : Kind → String
+    | .h => "h" | .s => "s" | .sdg => "sdg" | .x => "x" | .y => "y" | .z => "z" | .identity => "identity" | _ => "?"
+  s!"ok seq={String.intercalate "," (r.map fun (k, n) => showK k ++ "=" ++ showNoise n)}"
+
+
+/-! ### C17: commuting pairs, evolution of a given matrix, Infidelity dispatch -/
+
+/-- `dm.evolve n=… re=… im=… nq=<qubits> ops=<COp tokens, registers of type p>`: apply the gates of
+    `DensityMatrixCompiler.compile_one_gate` to a given matrix -/
+def evolve (a : Args) : String :=
+  let ρ := matOf a
+  let nq := getNat a "nq"
+  let ops := (listOf (get a "ops")).map parseCOp
+  let r := ops.foldl (fun (acc : Except Err DmSt) op => match acc with
+    | .error e => .error e
+    | .ok s => dmGate nq nq true op s) (.ok { ρ := some ρ, creg := [] })
+  match r with
+  | .ok { ρ := some m, .. } => s!"ok {showMat m}"
+  | .ok _ => "ok nan=1"
+  | .error e => s!"err {e}"
+
+/-- eigenvalue vectors `p_i = ka_i²/s`, `q_i = kb_i²/s` of a commuting pair: Uhlmann fidelity and trace distance -/
+def comm (a : Args) : String :=
+  let ka := ratsOf (get a "ka")
+  let kb := ratsOf (get a "kb")
+  let sq := parseRat (get a "s")
+  let sa := ka.map fun k => k * k / sq
+  let sb := kb.map fun k => k * k / sq
+  -- a_i b_i = ka_i kb_i / s
+  let f := commFidelity (ka.map fun k => k) (kb.map fun k => k / sq)
+  s!"ok f={f} t={commTraceDist sa sb} p={showRats sa} q={showRats sb}"
+
+def repOf (a : Args) (kind pfx : String) : Rep :=
+  if kind = "s" then .s (CmdTab.tabOf a pfx) else .dm (matOf a pfx)
+
+def infid (a : Args) : String :=
+  let t := repOf a (get a "trep") "t"
+  let s := repOf a (get a "srep") "s"
+  let extra := match t, s with
+    | .s tt, .s ts => s!" overlap={stabOverlap tt ts}"
+    | .dm mt, .s ts => s!" overlap_signed={((mt.mul (stabilizerDensity ts)).trace.re)} overlap_coded={((mt.mul (stabilizerToDensityPure ts)).trace.re)}"
+    | _, _ => ""
+  match infidelity stabOverlap t s with
+  | .ok f => s!"{showFid f}{extra}"
+  | .error e => s!"err {e}{extra}"
+
+def stab2dm (a : Args) : String :=
+  let t := CmdTab.tabOf a
+  s!"ok {showMat (stabilizerToDensityPure t)} signed={(stabilizerDensity t).toStr}"
+
+
+/-- solver map: `h=tok;cnot_control=tok;cnot_target=tok` -/
+def parseSolverMap (s : String) : MapKey → Option NoiseM :=
+  let ents : List (MapKey × NoiseM) := if s = "" ∨ s = "-" then [] else (splitChar ';' s).map fun e =>
+    match splitChar '=' e with
+    | [k, v] =>
+      let parts := splitChar '_' k
+      let kind := parseKind (parts.headD "")
+      let key : MapKey := match parts.getD 1 "" with
+        | "control" => .control kind | "target" => .target kind | _ => .name kind
+      (key, parseNoise v)
+    | _ => (.name .param, .none)
+  fun k => (ents.find? fun e => e.1 == k).map (·.2)
+
+def noiseIdentify (a : Args) : String :=
+  let mp := parseSolverMap (get a "map")
+  let kinds := (listOf (get a "ops")).map parseKind
+  s!"ok noises={String.intercalate "," (kinds.map fun k => showNoise (identifyNoise k mp))}"
 
 def dispatch (cmd : String) (a : Args) : Option String :=
   match cmd with
+  | "dm.ptrace" => some (ptrace a false)
+  | "dm.ptrace_old" => some (ptrace a true)
+  | "dm.fidelity" => some (fid a)
+  | "dm.evolve" => some (evolve a)
+  | "dm.comm" => some (comm a)
+  | "dm.infid" => some (infid a)
+  | "dm.stab2dm" => some (stab2dm a)
+  | "noise.run" => some (noiseRun a)
+  | "noise.trace" => some (noiseTrace a)
+  | "noise.assign" => some (noiseAssign a)
+  | "noise.unwrap" => some (noiseUnwrap a)
+  | "noise.identify" => some (noiseIdentify a)
   | _ => none
 
 end Graphiq.CmdDM
